@@ -162,7 +162,7 @@ pub fn fault(name: &str) {
 
 #[derive(Default)]
 struct Bus {
-    fired: BTreeMap<String, u64>,
+    fired: BTreeMap<String, (u64, u64)>,
     waiters: BTreeMap<String, Vec<Waker>>,
 }
 
@@ -171,7 +171,7 @@ static BUS: Lazy<Mutex<Bus>> = Lazy::new(|| Mutex::new(Bus::default()));
 pub fn emit(name: &str) -> u64 {
     let seq = simcore::log::world(|| format!("ev {}", name));
     let mut b = BUS.lock();
-    b.fired.entry(name.to_string()).or_insert(seq);
+    b.fired.entry(name.to_string()).or_insert((seq, simcore::clock::now_us()));
     if let Some(ws) = b.waiters.remove(name) {
         for w in ws {
             w.wake();
@@ -181,6 +181,11 @@ pub fn emit(name: &str) -> u64 {
 }
 
 pub fn fired(name: &str) -> Option<u64> {
+    BUS.lock().fired.get(name).map(|x| x.0)
+}
+
+/// (event seq, virtual us) of the first firing of a named event.
+pub fn fired_at(name: &str) -> Option<(u64, u64)> {
     BUS.lock().fired.get(name).cloned()
 }
 
